@@ -134,8 +134,10 @@ package semantic
 //@   ensures result == nil && v.Extends != "" && lastIndex(v.Extends, ".") == -1 ==> inDom(r.ast.Name2Category, v.Extends) && r.ast.Name2Category[v.Extends] == parser.Category_Service
 //@   ensures result == nil && lastIndex(v.Extends, ".") >= 0 ==> v.Reference != nil
 //@   ensures result == nil && old(v.Reference) == nil && lastIndex(v.Extends, ".") >= 0 ==> 0 <= v.Reference.Index && v.Reference.Index < len(r.ast.Includes) && v.Reference.Name == v.Extends[lastIndex(v.Extends, ".")+1:] && IDLPrefix(r.ast.Includes[v.Reference.Index].Path) == v.Extends[:lastIndex(v.Extends, ".")] && inDom(r.ast.Includes[v.Reference.Index].Reference.Name2Category, v.Reference.Name) && r.ast.Includes[v.Reference.Index].Reference.Name2Category[v.Reference.Name] == parser.Category_Service && r.ast.Includes[v.Reference.Index].Used != nil
+//@   ensures forall k int :: 0 <= k && k < len(r.ast.Includes) && r.ast.Includes[k].Used != old(r.ast.Includes[k].Used) ==> result == nil && v.Reference != nil && int32(k) == v.Reference.Index
 //@   modifies v.Reference, parser.Include.Used
 //@   loop 1 invariant v.Reference == old(v.Reference) && wfResolver(r)
+//@   loop 1 invariant forall k int :: 0 <= k && k < len(r.ast.Includes) ==> r.ast.Includes[k].Used == old(r.ast.Includes[k].Used)
 
 //@ func (r *resolver) ResolveTypedef(t *typedefPair) error
 //@   requires t != nil && t.AST != nil && t.Type != nil && forall i int :: 0 <= i && i < len(t.AST.Typedefs) ==> t.AST.Typedefs[i] != nil && t.AST.Typedefs[i].Type != nil
@@ -225,6 +227,7 @@ package semantic
 //@   loop 1.3 invariant len(sss[0]) == 2 ==> completeC(r, ref, sss[0][0], sss[0][1], len(r.ast.Includes))
 //@   loop 1.3.1 invariant len(sss[0]) == 2 ==> completeC(r, ref, sss[0][0], sss[0][1], len(r.ast.Includes))
 //@   loop 1 invariant err == nil && refsOK(r.ast, ref) && forall k int :: 0 <= k && k < len(r.ast.Includes) && r.ast.Includes[k].Used != old(r.ast.Includes[k].Used) ==> exists j int :: 0 <= j && j < len(ref) && ref[j].Index == k
+//@   loop 1.3.1 step len(ref) != pre(len(ref)) ==> len(ref) == pre(len(ref)) + 1 && ref[len(ref)-1].IsEnum && ref[len(ref)-1].Sel == enum.Name && ref[len(ref)-1].Name == ss[2] && ref[len(ref)-1].Index == idx
 //@   loop 2 invariant forall x *parser.ConstValue :: x != nil && old(allocated(x) && x.Extra != nil && denotes(r.ast, x.Extra)) ==> x.Extra != nil && denotes(r.ast, x.Extra)
 //@   loop 2 invariant forall i int :: 0 <= i && i < $i ==> bound1(r.ast, t.TypedValue.List[i])
 //@   loop 3 invariant forall x *parser.ConstValue :: x != nil && old(allocated(x) && x.Extra != nil && denotes(r.ast, x.Extra)) ==> x.Extra != nil && denotes(r.ast, x.Extra)
